@@ -17,6 +17,7 @@ warnings.filterwarnings('ignore')
 #   ['input'] | ['conv', src, cout, k, stride, bias] | ['dw', src, k, stride, bias] | ['bn', src]
 #   | ['relu', src] | ['relu6', src] | ['pool', src, 'avg'|'max'] | ['flat', src]
 #   | ['lin', src, cout, bias] | ['add', a, b]
+#   | ['reuse', src, of]   the conv module of instruction `of` invoked again on `src` (layer reuse)
 # dim = 2 (Conv2d grammar of C02) or 1 (Conv1d family, C05 spec keys only)
 
 
@@ -92,6 +93,44 @@ def gen_desc(rng, first=None, couts=(2, 3, 4), dim=2, allow_bn=True, min_layers=
     return {'C0': C0, 'T': T, 'dim': dim, 'prog': prog, 'wseed': rng.randrange(1 << 30)}
 
 
+def gen_reuse_desc(rng, couts=(2, 3, 4), dim=2):
+    """A net in which ONE conv module is invoked twice at two different resolutions, both times on
+    tensors of the same producer (so the module's single in-quantizer and features calculator are
+    unambiguous): y = act(conv_a(x)); u = act(sh(y)); v = act(sh(pool(y))); z = pool(u) + v; ..."""
+    C0 = rng.choice([2, 3]) if couts != (2, 4, 8) else rng.choice([2, 4])
+    T = rng.choice([6, 8])
+    prog = [['input']]
+
+    def add(ins):
+        prog.append(ins)
+        return len(prog) - 1
+    c1, c2 = rng.choice(list(couts)), rng.choice(list(couts))
+    a = add(['conv', 0, c1, rng.choice([1, 3]), 1, int(rng.random() < 0.7)])
+    y = add(['relu', a])
+    k = rng.choice([1, 3])
+    bias = int(rng.random() < 0.7)
+    if rng.random() < 0.5:          # full resolution first
+        sh = add(['conv', y, c2, k, 1, bias])
+        u = add(['relu', sh])
+        py = add(['pool', y, rng.choice(['avg', 'max'])])
+        v = add(['relu', add(['reuse', py, sh])])
+        pu = add(['pool', u, rng.choice(['avg', 'max'])])
+    else:                           # pooled resolution first
+        py = add(['pool', y, rng.choice(['avg', 'max'])])
+        sh = add(['conv', py, c2, k, 1, bias])
+        v = add(['relu', sh])
+        u = add(['relu', add(['reuse', y, sh])])
+        pu = add(['pool', u, rng.choice(['avg', 'max'])])
+    cur = add(['add', pu, v] if rng.random() < 0.5 else ['add', v, pu])
+    ch = c2
+    if rng.random() < 0.5:
+        ch = rng.choice(list(couts))
+        cur = add(['relu', add(['conv', cur, ch, rng.choice([1, 3]), 1, int(rng.random() < 0.7)])])
+    f = add(['flat', cur])
+    add(['lin', f, rng.choice([2, 4]) if couts == (2, 4, 8) else rng.choice([2, 3]), int(rng.random() < 0.8)])
+    return {'C0': C0, 'T': T, 'dim': dim, 'prog': prog, 'wseed': rng.randrange(1 << 30)}
+
+
 def _shapes(desc):
     """channels and spatial size of every instruction's output"""
     ch, sp = [], []
@@ -103,6 +142,9 @@ def _shapes(desc):
             ch.append(ins[2]); sp.append((sp[ins[1]] - 1) // ins[4] + 1)
         elif op == 'dw':
             ch.append(ch[ins[1]]); sp.append((sp[ins[1]] - 1) // ins[3] + 1)
+        elif op == 'reuse':
+            of = desc['prog'][ins[2]]
+            ch.append(of[2]); sp.append((sp[ins[1]] - 1) // of[4] + 1)
         elif op in ('bn', 'relu', 'relu6', 'add'):
             ch.append(ch[ins[1]]); sp.append(sp[ins[1]])
         elif op == 'pool':
@@ -159,6 +201,8 @@ def build_net(desc):
                     continue
                 if op in ('conv', 'dw', 'bn', 'pool', 'flat', 'lin'):
                     v.append(getattr(self, 'n%d' % i)(v[ins[1]]))
+                elif op == 'reuse':
+                    v.append(getattr(self, 'n%d' % ins[2])(v[ins[1]]))
                 elif op == 'relu':
                     v.append(F.relu(v[ins[1]]))
                 elif op == 'relu6':
@@ -216,6 +260,14 @@ def model_nodes(desc):
             k1 = k if dim == 2 else 1
             toks.append('%s:%d:%d:%d:%d:%d:%d:%d:%d:%d' % (op, mi[src], lt, ch[src], cout, k, k1, o0, o1, b))
             slots.append(('L', mi[i], i))
+        elif op == 'reuse':
+            _, src0, cout, k, s, bias = prog[ins[2]]
+            b = 1 if (bias or ins[2] in has_bn) else 0
+            o0 = sp[i]
+            o1 = sp[i] if dim == 2 else 1
+            k1 = k if dim == 2 else 1
+            toks.append('conv:%d:%d:%d:%d:%d:%d:%d:%d:%d:1' % (mi[ins[1]], lt, ch[ins[1]], cout, k, k1, o0, o1, b))
+            slots.append(('L', mi[i], i))
         elif op == 'lin':
             b = 1 if (ins[3] or i in has_bn) else 0
             toks.append('lin:%d:%d:%d:%d' % (mi[ins[1]], ch[ins[1]], ins[2], b))
@@ -240,13 +292,13 @@ def input_component_consumers(desc):
         op = ins[0]
         if op == 'input':
             root_in[i], mps_on_chain[i] = True, False
-        elif op in ('conv', 'lin'):
+        elif op in ('conv', 'lin', 'reuse'):
             root_in[i], mps_on_chain[i] = False, False
         else:
             root_in[i] = root_in[ins[1]]
             mps_on_chain[i] = mps_on_chain[ins[1]] or op in ('dw', 'add')
     return set(i for i, ins in enumerate(prog)
-               if ins[0] in ('conv', 'dw', 'lin') and root_in[ins[1]] and mps_on_chain[ins[1]])
+               if ins[0] in ('conv', 'dw', 'lin', 'reuse') and root_in[ins[1]] and mps_on_chain[ins[1]])
 
 
 def classify(desc):
